@@ -79,6 +79,7 @@ fn run_suite(suite: &str, cfg: &Cfg) {
         "e2epub" => e2epub::run(cfg),
         "e2ereq" => e2ereq::run(cfg),
         "registry" => registry::run(cfg),
+        "regbig" => registry::run_named(cfg, "regbig"),
         "e2etls" => e2etls::run(cfg),
         "e2erec" => e2erec::run(cfg),
         "e2esub" => e2esub::run(cfg),
